@@ -39,7 +39,11 @@ def wf_problems(o, group_support=None):
         tot = sum(e - s for s, e in zip(st, en))
         if tot > 0:
             exp = len(t) / (tot / 1e9)
-            if not (abs(o.rate - exp) <= 1e-9 * max(1.0, exp)):
+            # the code sums float differences end - start: absolute error <= ~1 ulp of the largest endpoint per interval,
+            # which is a RELATIVE error of that / total duration (matters for 1-us supports made by dropna)
+            big = max([abs(v) for v in st + en] + [1]) / 1e9
+            rel = 1e-9 + 4 * len(st) * np.finfo(float).eps * big / (tot / 1e9)
+            if not (abs(o.rate - exp) <= rel * max(1.0, exp)):
                 pr.append("rate %r != %r" % (o.rate, exp))
     if group_support is not None and len(t) and (st, en) != group_support:
         pr.append("member support != group support")
@@ -113,7 +117,7 @@ def constructors(ctx, n):
             t, rows, sup = state_of(o, cls > 0)
             if (t, sup) != (mt, msup) or (rows is not None and rows != mrows):
                 ctx.fail("corr", "constructor != model Series.new", inp, impl=(t, rows, sup), model=(mt, mrows, msup))
-            elif len(t) and den > 0 and not abs(o.rate - num / (den / 1e9)) <= 1e-9 * max(1.0, o.rate):
+            elif len(t) and den > 0 and not abs(o.rate - num / (den / 1e9)) <= (1e-9 + 1e-6 / (den / 1e9) * 1e-9) * max(1.0, o.rate):
                 ctx.fail("corr", "rate != model num/den", inp, impl=o.rate, model=(num, den))
 
 
